@@ -100,6 +100,20 @@ func CoreMain(seed uint64, n int, perBase int) {
 		c.Base, c.Cut = base, cut
 		hx.Emit(c)
 	}
+	// fixed enumeration: all structured templates and a seed-rotated sixteenth of their mutations (thorough: all)
+	sb, sm := StructuredCases()
+	for _, ts := range sb {
+		emit(ts, true, false)
+	}
+	slices := uint64(16)
+	if perBase > 6 {
+		slices = 1
+	}
+	for i, ts := range sm {
+		if uint64(i)%slices == seed%slices {
+			emit(ts, false, false)
+		}
+	}
 	for i := 0; i < n; i++ {
 		ts := g.Program(1 + r.IntN(3))
 		if len(ts) > 40 {
